@@ -197,6 +197,8 @@ def ty(e):
             return ("real", s[:ax] + s[ax + 1 :])
         if op == "reshape":
             p = tuple(p)
+            if scalar_constant(e[3]):
+                raise IllTyped("reshape of a python scalar (Number-only operand)")
             if int(np.prod(p, dtype=int)) != int(np.prod(s, dtype=int)) or p == s:
                 raise IllTyped("reshape")
             return ("real", p)
@@ -249,6 +251,14 @@ def ty(e):
         except ValueError:
             raise IllTyped("broadcast")
     raise IllTyped(t)
+
+
+def scalar_constant(e):
+    """Built from Number leaves only: its run-time value is a python scalar, which has no array methods."""
+    if e[0] in ("num", "numi"):
+        return True
+    cs = children(e)
+    return bool(cs) and e[0] in ("u", "b", "con") and all(scalar_constant(c) for c in cs)
 
 
 def _real(t):
